@@ -57,6 +57,7 @@ class NT(Sym):
         self.legs = list(legs)
         self.edges = edges if edges is not None else []
         self.scale = tuple(scale)
+        self._store = []                # blocks overwritten in place (shared by views)
 
     # ---- numpy attributes
     @property
@@ -86,15 +87,29 @@ class NT(Sym):
         return [l.key() for l in self.legs]
 
     def _new(self, legs, name=None, scale=None):
-        return NT(name or self._name, legs, self.edges, self.scale if scale is None else scale)
+        t = NT(name or self._name, legs, self.edges, self.scale if scale is None else scale)
+        t._store = self._store          # axis permutations, regroupings and slices are views of the same storage
+        return t
+
+    def _fresh(self, legs, name=None, scale=None):
+        """result of an arithmetic operation: a new array"""
+        t = self._new(legs, name, scale)
+        t._store = list(self._store)
+        return t
+
+    @property
+    def patches(self):
+        return tuple(self._store)
 
     def conj(self):
-        return self._new([l.copy(conj=not l.conj) for l in self.legs])
+        return self._fresh([l.copy(conj=not l.conj) for l in self.legs])
 
     conjugate = conj
 
     def copy(self):
-        return self._new(list(self.legs))
+        t = self._new(list(self.legs))
+        t._store = list(self._store)
+        return t
 
     def astype(self, *a, **k):
         return self
@@ -212,18 +227,33 @@ class NT(Sym):
     def dtype(self):
         return "dtype"
 
+    def __add__(self, o):
+        """sum of two tensors over the same axes (identities and order must agree), or with the number zero of an accumulator"""
+        if isinstance(o, (int, float)) and o == 0:
+            return self
+        if not isinstance(o, NT) or o.keys() != self.keys() or [l.conj for l in o.legs] != [l.conj for l in self.legs]:
+            raise AnalysisError(f"sum of {self!r} and {o!r}: different axes")
+        return self._fresh(self.legs, name=self._name if o._name == self._name else f"({self._name}+{o._name})")
+
+    __radd__ = __add__
+    __iadd__ = __add__
+
+    def __setitem__(self, k, v):
+        """a block of the tensor is overwritten: recorded, not interpreted; views (axis permutations, regroupings, slices) share the record, copies do not"""
+        self._store.append((repr(k), repr(v), getattr(v, "scale", ())))
+
     def __mul__(self, o):
         if isinstance(o, NT):
             raise AnalysisError("elementwise product of abstract tensors is not modelled")
-        return self._new(self.legs, scale=self.scale + (repr(o),))
+        return self._fresh(self.legs, scale=self.scale + (repr(o),))
 
     __rmul__ = __mul__
 
     def __truediv__(self, o):
-        return self._new(self.legs, scale=self.scale + (f"1/{o!r}",))
+        return self._fresh(self.legs, scale=self.scale + (f"1/{o!r}",))
 
     def __neg__(self):
-        return self._new(self.legs, scale=self.scale + ("-1",))
+        return self._fresh(self.legs, scale=self.scale + ("-1",))
 
     def __repr__(self):
         return f"{self._name}[" + ", ".join(repr(l) for l in self.legs) + "]"
